@@ -229,18 +229,26 @@ func (fc *fetchCase) dump() {
 		strings.Join(pend, ";"), strings.Join(ss, " "))
 }
 
-// guarded runs f; if it does not return within 8 s of wall time the code under test is looping: record and exit.
+// guarded runs f (one step of the code under test). No wall-clock limit decides anything: the step is reported as stuck
+// only when that is proven by state (see watchdog_test.go) — 10 s of the process's own CPU time inside this one step, or
+// two identical all-blocked goroutine dumps with no CPU use in between. Otherwise the watchdog keeps waiting.
 func (fc *fetchCase) guarded(what string, f func()) {
 	done := make(chan struct{})
 	go func() {
-		select {
-		case <-done:
-		case <-time.After(8 * time.Second):
-			fc.o.pf("HANG %s\n", what)
-			fc.o.pf("END\n")
-			fc.o.close()
-			fmt.Fprintln(os.Stderr, "HANG in", what)
-			os.Exit(0)
+		w := newStuckWatch(10 * time.Second)
+		for {
+			select {
+			case <-done:
+				return
+			case <-time.After(500 * time.Millisecond):
+			}
+			if why := w.proven(); why != "" {
+				fc.o.pf("HANG %s %s\n", what, strings.ReplaceAll(why, " ", "_"))
+				fc.o.pf("END\n")
+				fc.o.close()
+				fmt.Fprintln(os.Stderr, "HANG in", what, why)
+				os.Exit(0)
+			}
 		}
 	}()
 	f()
